@@ -8,12 +8,14 @@ Rec == ndJsonDeserialize(IOEnv.TRACE)
 
 Failed(e) ==
   CASE e.op = "build" -> {c \in {"C20.build"} : ~e.ok}
-    [] e.op \in {"serde.conf", "serde.interval"} ->
+    [] e.op \in {"serde.conf", "serde.interval", "serde.state"} ->
          {c \in {"C20.value_roundtrip"} : ~(e.out.tag = "ok" /\ e.out.eq /\ e.out.same_text)}
 Clauses(e) ==
   CASE e.op = "build" -> {"C20.build", "C20.build." \o e.name}
     [] e.op = "serde.conf" -> {"C20.value_roundtrip", "C20.value.confidence"}
     [] e.op = "serde.interval" -> {"C20.value_roundtrip", "C20.value.interval." \o e.ty}
+    [] e.op = "serde.state" -> {"C20.value_roundtrip", "C20.value.state." \o e.kind}
+                               \cup (IF e.doublings >= 31 \/ (e.kind = "prop" /\ e.nbig.p >= 32) THEN {"C20.value.count_beyond_32_bits"} ELSE {})
 
 VARIABLES l, cov, nbad
 vars == <<l, cov, nbad>>
